@@ -200,4 +200,153 @@ theorem rt_scalar (v : CValue) (h : scalarOk v = true) : decode (prepare v) = .o
 theorem erase_scalar (v : CValue) (h : scalarOk v = true) : erase v = v := by
   cases v <;> simp [scalarOk] at h <;> simp [erase]
 
+/-! ### round trips of optionals, arrays, dictionaries, ranges and composite values -/
+
+
+def valueKind (k : CompKind) : Bool :=
+  match k with
+  | .struct | .resource | .event | .contract | .enum => true
+  | _ => false
+
+theorem decode_comp_step (k : CompKind) (hk : valueKind k = true) (id : String) (xs : List Json) :
+    decodeValue (.obj [("value", .obj [("id", .str id), ("fields", .arr xs)]), ("type", .str k.jsonKind)]) =
+      (do let i ← decodeCompositeTypeID (.str id)
+          let (fs, vs) ← decodeCompFieldsList xs
+          pure (.comp (.comp k i .nil fs (if k == .event then .cons .nil .nil else .nil)) vs)) := by
+  rw [decodeValue]
+  cases k <;> simp [valueKind] at hk <;>
+    simp [CompKind.jsonKind, getKey, lookupSub, toStr, bind, Except.bind, pure, Except.pure, isIntKind, isFixKind,
+      intRange, fixInfo, asArr, asObj] <;> rfl
+
+theorem decodeCompFieldsList_cons (x : Json) (n : String) (r : List Json) :
+    decodeCompFieldsList (.obj [("value", x), ("name", .str n)] :: r) =
+      (do let v ← decodeValue x; let (fs, vs) ← decodeCompFieldsList r; pure (.cons n v.typeOf fs, .cons v vs)) := by
+  rw [decodeCompFieldsList]
+  simp [getKey, lookupSub, toStr, bind, Except.bind, pure, Except.pure, asObj]
+
+theorem decodeCompositeTypeID_ok (id : String) (h : typeIDShapeOk id = true) : decodeCompositeTypeID (.str id) = .ok id := by
+  simp [decodeCompositeTypeID, toStr, bind, Except.bind, h, pure, Except.pure]
+
+
+
+mutual
+/-- values built from scalars with optionals, arrays, dictionaries and ranges -/
+def plainOk : CValue → Bool
+  | .some v => plainOk v
+  | .arr _ vs => plainOkVs vs
+  | .dict _ kvs => plainOkPs kvs
+  | .range _ s e p => plainOk s && plainOk e && plainOk p
+  | .comp (.comp k id _ _ _) vs => valueKind k && typeIDShapeOk id && plainOkVs vs
+  | v => scalarOk v
+def plainOkVs : Values → Bool
+  | .nil => true | .cons v r => plainOk v && plainOkVs r
+def plainOkPs : Pairs → Bool
+  | .nil => true | .cons k v r => plainOk k && plainOk v && plainOkPs r
+end
+
+theorem prepare_isObj (v : CValue) (h : plainOk v = true) : ∃ kvs, prepare v = .obj kvs := by
+  cases v <;> first | (simp [prepare, vobj]; done) | (simp [plainOk, scalarOk] at h)
+
+theorem decode_some_step (x : Json) (kvs) (hx : x = .obj kvs) :
+    decodeValue (.obj [("value", x), ("type", .str "Optional")]) = (do let y ← decodeValue x; pure (.some y)) := by
+  subst hx
+  rw [decodeValue]
+  simp [getKey, lookupSub, toStr, bind, Except.bind, pure, Except.pure]
+
+theorem decode_arr_step (xs : List Json) :
+    decodeValue (.obj [("value", .arr xs), ("type", .str "Array")]) = (do let vs ← decodeValuesList xs; pure (.arr .nil vs)) := by
+  rw [decodeValue]
+  simp [getKey, lookupSub, toStr, bind, Except.bind, pure, Except.pure, isIntKind, isFixKind, intRange, fixInfo, asArr]
+
+theorem decode_dict_step (xs : List Json) :
+    decodeValue (.obj [("value", .arr xs), ("type", .str "Dictionary")]) = (do let ps ← decodePairsList xs; pure (.dict .nil ps)) := by
+  rw [decodeValue]
+  simp [getKey, lookupSub, toStr, bind, Except.bind, pure, Except.pure, isIntKind, isFixKind, intRange, fixInfo, asArr]
+
+theorem decode_range_step (s e p : Json) :
+    decodeValue (.obj [("value", .obj [("start", s), ("end", e), ("step", p)]), ("type", .str "InclusiveRange")]) =
+      (do let a ← decodeValue s; let b ← decodeValue e; let c ← decodeValue p; pure (.range (.range a.typeOf) a b c)) := by
+  rw [decodeValue]
+  simp [getKey, lookupSub, toStr, bind, Except.bind, pure, Except.pure, isIntKind, isFixKind, intRange, fixInfo, asObj]
+
+theorem decodeValuesList_cons (x : Json) (r : List Json) :
+    decodeValuesList (x :: r) = (do let v ← decodeValue x; let vs ← decodeValuesList r; pure (.cons v vs)) := by
+  rw [decodeValuesList]
+
+theorem decodePairsList_cons (k v : Json) (r : List Json) :
+    decodePairsList (.obj [("key", k), ("value", v)] :: r) =
+      (do let a ← decodeValue k; let b ← decodeValue v; let ps ← decodePairsList r; pure (.cons a b ps)) := by
+  rw [decodePairsList]
+  simp [getKey, lookupSub, bind, Except.bind, pure, Except.pure, asObj]
+
+def isLeaf : CValue → Bool
+  | .some _ | .arr _ _ | .dict _ _ | .range _ _ _ _ | .comp _ _ => false
+  | _ => true
+
+theorem rt_plain_leaf (v : CValue) (h : plainOk v = true) (hl : isLeaf v = true) :
+    decodeValue (prepare v) = .ok (erase v) := by
+  have hs : scalarOk v = true := by
+    cases v <;> simp [isLeaf] at hl <;> simpa [plainOk] using h
+  rw [erase_scalar v hs]; exact rt_scalar v hs
+
+mutual
+theorem rt_plain : ∀ v : CValue, plainOk v = true → decodeValue (prepare v) = .ok (erase v)
+  | .some v, h => by
+    simp only [plainOk] at h
+    obtain ⟨kvs, hk⟩ := prepare_isObj v h
+    simp only [prepare, vobj, erase]
+    rw [decode_some_step _ kvs hk, rt_plain v h]; rfl
+  | .arr t vs, h => by
+    simp only [plainOk] at h
+    simp only [prepare, vobj, erase]
+    rw [decode_arr_step, rt_plainVs vs h]; rfl
+  | .dict t kvs, h => by
+    simp only [plainOk] at h
+    simp only [prepare, vobj, erase]
+    rw [decode_dict_step, rt_plainPs kvs h]; rfl
+  | .range t s e p, h => by
+    simp only [plainOk, Bool.and_eq_true] at h
+    simp only [prepare, vobj, erase]
+    rw [decode_range_step, rt_plain s h.1.1, rt_plain e h.1.2, rt_plain p h.2]; rfl
+  | .nilv, h => rt_plain_leaf _ h rfl
+  | .void, h => rt_plain_leaf _ h rfl
+  | .none, h => rt_plain_leaf _ h rfl
+  | .bool _, h => rt_plain_leaf _ h rfl
+  | .str _, h => rt_plain_leaf _ h rfl
+  | .char _, h => rt_plain_leaf _ h rfl
+  | .addr _, h => rt_plain_leaf _ h rfl
+  | .int _ _, h => rt_plain_leaf _ h rfl
+  | .fix _ _, h => rt_plain_leaf _ h rfl
+  | .path _ _, h => rt_plain_leaf _ h rfl
+  | .cap _ _ _, h => rt_plain_leaf _ h rfl
+  | .type _, h => rt_plain_leaf _ h rfl
+  | .func _, h => rt_plain_leaf _ h rfl
+  | .comp t vs, h => by
+    cases t with
+    | comp k id e fs is =>
+      simp only [plainOk, Bool.and_eq_true] at h
+      simp only [prepare, vobj, compValueKind, compTypeID, compFields, erase]
+      rw [decode_comp_step k h.1.1, decodeCompositeTypeID_ok id h.1.2, rt_plainFs vs fs h.2]; rfl
+    | _ => simp [plainOk, scalarOk] at h
+theorem rt_plainVs : ∀ vs : Values, plainOkVs vs = true → decodeValuesList (prepareValues vs) = .ok (eraseValues vs)
+  | .nil, _ => by simp only [prepareValues, eraseValues]; rw [decodeValuesList]; rfl
+  | .cons v r, h => by
+    simp only [plainOkVs, Bool.and_eq_true] at h
+    simp only [prepareValues, eraseValues]
+    rw [decodeValuesList_cons, rt_plain v h.1, rt_plainVs r h.2]; rfl
+theorem rt_plainFs : ∀ (vs : Values) (fs : Fields), plainOkVs vs = true →
+    decodeCompFieldsList (prepareCompFields fs vs) = .ok (zipFieldTypes fs (eraseValues vs), eraseValues vs)
+  | .nil, _, _ => by simp only [prepareCompFields, eraseValues, zipFieldTypes]; rw [decodeCompFieldsList]; rfl
+  | .cons v r, fs, h => by
+    simp only [plainOkVs, Bool.and_eq_true] at h
+    simp only [prepareCompFields, eraseValues, zipFieldTypes]
+    rw [decodeCompFieldsList_cons, rt_plain v h.1, rt_plainFs r (fieldsTail fs) h.2]; rfl
+theorem rt_plainPs : ∀ kvs : Pairs, plainOkPs kvs = true → decodePairsList (preparePairs kvs) = .ok (erasePairs kvs)
+  | .nil, _ => by simp only [preparePairs, erasePairs]; rw [decodePairsList]; rfl
+  | .cons k v r, h => by
+    simp only [plainOkPs, Bool.and_eq_true] at h
+    simp only [preparePairs, erasePairs]
+    rw [decodePairsList_cons, rt_plain k h.1.1, rt_plain v h.1.2, rt_plainPs r h.2]; rfl
+end
+
 end Verif.Proofs.Codec.Json
